@@ -15,6 +15,7 @@ import (
 	"net"
 	"os"
 	"path/filepath"
+	"sort"
 	"testing"
 	"time"
 
@@ -124,16 +125,30 @@ func runCRace(r *verifsim.Run) {
 	}
 	reps := zz.NewRaceReports()
 	r.Count("race_reports", len(reps))
+	// reports in signature order, so that the first reported violation does not depend on which
+	// race the runtime happened to notice first; the raw report (addresses, goroutine numbers)
+	// goes to the event log, the message stays reproducible
+	sigs := map[string]string{}
+	var order []string
 	for _, rep := range reps {
 		sig, txt := zz.RaceSignature(rep)
 		if sig == "" {
 			r.Probe("race-report-outside-repository")
 			continue
 		}
+		if _, ok := sigs[sig]; !ok {
+			order = append(order, sig)
+			sigs[sig] = txt
+		}
+	}
+	sort.Strings(order)
+	for _, sig := range order {
+		txt := sigs[sig]
 		if len(txt) > 1800 {
 			txt = txt[:1800] + " …"
 		}
-		r.Violate("C16", "C16.race", sig, "data race between the request path and the frame loop: %s\n%s", sig, txt)
+		r.Logf("race report for %s:\n%s", sig, txt)
+		r.Violate("C16", "C16.race", sig, "data race between the request path and the frame loop (innermost repository functions of the two unordered accesses): %s", sig)
 	}
 	r.Nontrivial(fmt.Sprintf("%d:%v:%q", len(sc.Conns), gaps, kinds))
 	r.Probe("race-pass-run")
